@@ -128,6 +128,42 @@ def flag_writers(analysis: Analysis, res: RuleResult) -> None:
     res.add("C14-R3", "persistence:Persistence.save_sensors / the skip test reads only the dirty flag", ok_first, common.where(analysis, info, first), "`if not self.need_save: return`" if ok_first else f"first statement is `{unparse(first)[:60]}`")
 
 
+def alert_and_stop(analysis: Analysis, res: RuleResult, r1: str = "C14-R1", r2: str = "C14-R2") -> None:
+    """Every path through alert() marks the state dirty; stop() disconnects, cancels the pending save, saves once."""
+    alert_specs = [(analysis.versions[-1], f, fl) for f in ("serial", "mqtt") for fl in ("sync", "async")]
+    for summ in common.pmap(analysis, alert_root, alert_specs):
+        rows = summ["rows"]
+        if len(rows) < 3:
+            raise AnalysisError("C14-R1: fewer than 3 paths through Gateway.alert")
+        for r in rows:
+            if r["kind"] != "val":
+                res.add(r1, "__init__:Gateway.alert / returns normally", False, "mysensors/__init__.py", "alert() can raise", r["witness"], context=summ["ctx"])
+                continue
+            ok = r["dirty"] or r["off"]
+            what = "callback raised" if r["cb_raised"] else "normal"
+            res.add(r1, f"__init__:Gateway.alert / marks dirty on the path: {what}", ok, "mysensors/__init__.py", "need_save = True stored (or persistence is off)" if ok else "a path through alert() with persistence on does not store need_save = True", r["witness"] if not ok else None, context=summ["ctx"])
+    stop_specs = [(analysis.versions[-1], "serial", "sync"), (analysis.versions[-1], "serial", "async"), (analysis.versions[-1], "mqtt", "sync"), (analysis.versions[-1], "mqtt", "async")]
+    for summ in common.pmap(analysis, stop_root, stop_specs):
+        q = summ["qual"]
+        on_rows = [r for r in summ["rows"] if r["on"]]
+        if not on_rows:
+            res.add(r2, f"{q} / saves exactly once when persistence is on", False, "mysensors/task.py", "no path through stop() with persistence on reaches the final save", context=summ["ctx"])
+        for r in summ["rows"]:
+            if r["kind"] == "raise":
+                res.add(r2, f"{q} / returns normally", False, "mysensors/task.py", f"stop() can raise {r['exc']}", r["witness"], context=summ["ctx"])
+        for r in on_rows:
+            if r["kind"] != "val":
+                continue
+            ok_save = len(r["saves"]) == 1
+            res.add(r2, f"{q} / saves exactly once when persistence is on", ok_save, "mysensors/task.py", "one save_sensors call on the path" if ok_save else f"{len(r['saves'])} save_sensors calls on a path with persistence on", r["witness"] if not ok_save else None, context=summ["ctx"])
+            if r["has_cancel"]:
+                ok_c = len(r["cancels"]) >= 1 and ok_save and max(r["cancels"]) < r["saves"][0]
+                res.add(r2, f"{q} / pending save is cancelled before the final save", ok_c, "mysensors/task.py", "cancel call precedes save_sensors" if ok_c else "a pending scheduled save is not cancelled before the final save", r["witness"] if not ok_c else None, context=summ["ctx"])
+            if ok_save:
+                ok_d = bool(r["disconnects"]) and min(r["disconnects"]) < r["saves"][0]
+                res.add(r2, f"{q} / disconnects before the final save", ok_d, "mysensors/task.py", "transport.disconnect() precedes save_sensors" if ok_d else "the final save runs while the transport is still connected: a message may land after the save", context=summ["ctx"])
+
+
 def run(analysis: Analysis, tier: str) -> RuleResult:
     res = RuleResult(PROP)
     res.explanation = [
@@ -141,38 +177,7 @@ def run(analysis: Analysis, tier: str) -> RuleResult:
     n = mutation_alert(res, "C14-R1", recs)
     if n < 20:
         raise AnalysisError(f"C14-R1: only {n} mutating paths found (expected at least 20)")
-    alert_specs = [(analysis.versions[-1], f, fl) for f in ("serial", "mqtt") for fl in ("sync", "async")]
-    for summ in common.pmap(analysis, alert_root, alert_specs):
-        rows = summ["rows"]
-        if len(rows) < 3:
-            raise AnalysisError("C14-R1: fewer than 3 paths through Gateway.alert")
-        for r in rows:
-            if r["kind"] != "val":
-                res.add("C14-R1", "__init__:Gateway.alert / returns normally", False, "mysensors/__init__.py", "alert() can raise", r["witness"], context=summ["ctx"])
-                continue
-            ok = r["dirty"] or r["off"]
-            what = "callback raised" if r["cb_raised"] else "normal"
-            res.add("C14-R1", f"__init__:Gateway.alert / marks dirty on the path: {what}", ok, "mysensors/__init__.py", "need_save = True stored (or persistence is off)" if ok else "a path through alert() with persistence on does not store need_save = True", r["witness"] if not ok else None, context=summ["ctx"])
-    stop_specs = [(analysis.versions[-1], "serial", "sync"), (analysis.versions[-1], "serial", "async"), (analysis.versions[-1], "mqtt", "sync"), (analysis.versions[-1], "mqtt", "async")]
-    for summ in common.pmap(analysis, stop_root, stop_specs):
-        q = summ["qual"]
-        on_rows = [r for r in summ["rows"] if r["on"]]
-        if not on_rows:
-            raise AnalysisError(f"C14-R2: no path through {q} with persistence on")
-        for r in summ["rows"]:
-            if r["kind"] == "raise":
-                res.add("C14-R2", f"{q} / returns normally", False, "mysensors/task.py", f"stop() can raise {r['exc']}", r["witness"], context=summ["ctx"])
-        for r in on_rows:
-            if r["kind"] != "val":
-                continue
-            ok_save = len(r["saves"]) == 1
-            res.add("C14-R2", f"{q} / saves exactly once when persistence is on", ok_save, "mysensors/task.py", "one save_sensors call on the path" if ok_save else f"{len(r['saves'])} save_sensors calls on a path with persistence on", r["witness"] if not ok_save else None, context=summ["ctx"])
-            if r["has_cancel"]:
-                ok_c = len(r["cancels"]) >= 1 and ok_save and max(r["cancels"]) < r["saves"][0]
-                res.add("C14-R2", f"{q} / pending save is cancelled before the final save", ok_c, "mysensors/task.py", "cancel call precedes save_sensors" if ok_c else "a pending scheduled save is not cancelled before the final save", r["witness"] if not ok_c else None, context=summ["ctx"])
-            if ok_save:
-                ok_d = bool(r["disconnects"]) and min(r["disconnects"]) < r["saves"][0]
-                res.add("C14-R2", f"{q} / disconnects before the final save", ok_d, "mysensors/task.py", "transport.disconnect() precedes save_sensors" if ok_d else "the final save runs while the transport is still connected: a message may land after the save", context=summ["ctx"])
+    alert_and_stop(analysis, res)
     flag_writers(analysis, res)
     res.assumptions = ["persisted projection = keys of the JSON encoder's dict literals + insertions into the node/child maps", "external raise model sa/extmodel.py"]
     res.not_decided = ["the cross-thread window between the end of serialisation and the flag store"]
